@@ -774,7 +774,7 @@ def run_property(prop, tier, seed):
     traces = [tuple(x) for x in hook_extra.pop("_extra_traces", [])]
     replays = []
     for n in pl["emit"][tier]:
-        for out, st in replay_edges(binp, n, wd, 1500 if tier == "quick" else 20000, seed):
+        for out, st in replay_edges(binp, n, wd, 600 if tier == "quick" else 12000, seed):
             traces.append((out, "tree-" + st["model"].replace("@", "-")))
             replays.append(st)
     action_totals = vacuity_check(prop, replays)
@@ -802,6 +802,12 @@ def run_property(prop, tier, seed):
     for path, tag in traces:
         n, findings = validate_trace(path, wd)
         total_lines += n
+        # a digest mismatch that the validator cannot explain means the model's call alphabet and the harness's
+        # concretisation disagree (names, classes): the replay did not test what the model generated
+        st = next((r for r in replays if tag == "tree-" + r["model"].replace("@", "-")), None)
+        if st and st["mismatches"] > 0 and not findings:
+            raise ToolError(f"model / harness desync on {st['model']}: {st['mismatches']} digest mismatches but no finding; first: "
+                            + json.dumps(st.get("first_mismatch"))[:600])
         for f in findings:
             f["tag"] = tag
             if prop in f.get("props", []):
